@@ -7,16 +7,19 @@
 //	C04.hm      cap lf mode ops | replies
 //	C04.ei      dumps cap lf ops | outcome replies
 //	C04.quartet q q2 cap lf | hashes1 hashes2 cmp11 cmp12 heq11 heq12 mapreplies
+//	C04.splits  dump copies | outcome DumpBitSet-per-branch exit stdout-of-`gotree stats splits` (the tree `copies` times in the input)
 package c04
 
 import (
 	"fmt"
 	"math/rand"
+	"os"
 	"reflect"
 	"sort"
 	"strconv"
 	"strings"
 	"sync"
+	"time"
 	"unsafe"
 
 	"verifharness/core"
@@ -746,9 +749,19 @@ func pairsCase(c *core.Ctx) {
 			n2 = a
 		}
 	}
-	if g.Chance(0.04) {
-		// one tip renamed: other taxa (CommonEdges must refuse; nothing else is judged)
-		dupName(n2, "other")
+	if g.Chance(0.07) {
+		// other taxa (CommonEdges must refuse; nothing else is judged): one tip renamed (same number of tips),
+		// or one more tip in the second / in the first tree (the tips of one are a strict subset of the other's)
+		switch g.Intn(3) {
+		case 0:
+			dupName(n2, "other")
+		case 1:
+			n2.Kids = append(n2.Kids, &core.N{Name: "extra", E: core.NewE()})
+			core.NumberEdges(n2)
+		default:
+			n1.Kids = append(n1.Kids, &core.N{Name: "extra", E: core.NewE()})
+			core.NumberEdges(n1)
+		}
 	}
 	doPairs(c, n1, n2)
 }
@@ -1246,7 +1259,8 @@ func quartetCase(c *core.Ctx, i int) {
 	}
 	q = draw()
 	q2 := draw()
-	if g.Chance(0.08) {
+	repeated := g.Chance(0.15)
+	if repeated {
 		// a repeated taxon (never produced by Tree.Quartets, but the functions are total)
 		q2[g.Intn(4)] = q2[g.Intn(4)]
 		if g.Chance(0.5) {
@@ -1254,7 +1268,9 @@ func quartetCase(c *core.Ctx, i int) {
 			q[0], q[3] = q[3], q[0]
 		}
 	}
-	if g.Chance(0.3) {
+	if repeated && g.Chance(0.6) {
+		// kept as drawn
+	} else if g.Chance(0.3) {
 		// same taxa, another presentation
 		p := perms4[g.Intn(24)]
 		q2 = [4]uint{q[p[0]], q[p[1]], q[p[2]], q[p[3]]}
@@ -1362,7 +1378,7 @@ func quartetsCase(c *core.Ctx, i int) {
 		}
 	}
 	// IndexQuartets allocates 12 800 000 buckets: only now and then
-	doQuartets(c, n, g.Chance(0.5), i%c.Scale(12, 40) == 0)
+	doQuartets(c, n, g.Chance(0.5), i%c.Scale(5, 40) == 0)
 }
 
 // bigQuartetsCase: more than 64 tips with a single branch carrying quartets (a polytomy of three tips
@@ -1392,6 +1408,84 @@ func bigQuartetsCase(c *core.Ctx) {
 	root.Kids = append(root.Kids, rest[at:]...)
 	core.NumberEdges(root)
 	doQuartets(c, root, false, true)
+}
+
+// ---------------------------------------------------------------------------
+// C04.splits : Edge.DumpBitSet on every branch, and the command `gotree stats splits`
+
+// splitsCase draws a tree with plain names (the text goes through the Newick reader of the command), a quarter of
+// them around the 64-bit words of the bitset (63..66 and 127..130 tips).
+func splitsCase(c *core.Ctx, i int) {
+	g := c.G
+	o := core.DefaultOpts()
+	o.Lengths, o.Supports, o.InnerNames = 1, 0, 0
+	o.MinTips, o.MaxTips = 3, 14
+	switch {
+	case i%4 == 1:
+		o.MinTips, o.MaxTips = 64, 64 // the last width DumpBitSet prints in full (hypothesis of dumpBitSet_correct)
+	case i%8 == 3:
+		o.MinTips, o.MaxTips = 63, 66
+	case i%8 == 7:
+		o.MinTips, o.MaxTips = 127, 130
+	case i%16 == 4:
+		o.MinTips, o.MaxTips = 129, 131 // three 64-bit words
+	case i%16 == 0:
+		o.MinTips, o.MaxTips = 2, 3
+	}
+	n, _ := g.Tree(o)
+	if g.Chance(0.15) {
+		n = rootTip(n, "rt", g)
+	}
+	if i%16 == 8 {
+		// duplicate names: the command must refuse
+		tn := n.TipNames()
+		var rec func(x *core.N)
+		rec = func(x *core.N) {
+			if len(x.Kids) == 0 && x.Name == tn[len(tn)-1] {
+				x.Name = tn[0]
+			}
+			for _, k := range x.Kids {
+				rec(k)
+			}
+		}
+		rec(n)
+	}
+	core.NumberEdges(n)
+	// a third of the inputs hold the tree two or three times: the command numbers the trees 0, 1, 2
+	copies := 1
+	if i%3 == 2 {
+		copies = 2 + g.Intn(2)
+	}
+	doSplits(c, n, copies)
+}
+
+func doSplits(c *core.Ctx, n *core.N, copies int) {
+	t, err := core.Build(n)
+	if err != nil {
+		panic(err)
+	}
+	nw := t.Newick()
+	outcome := "ok"
+	var dumps []string
+	if p, msg := core.Safe(func() {
+		if err := t.ReinitIndexes(); err != nil {
+			outcome = "err"
+			return
+		}
+		for _, ea := range walkEdges(t) {
+			dumps = append(dumps, ea.e.DumpBitSet())
+		}
+	}); p {
+		outcome = "panic:" + core.Escape(msg)
+	}
+	f := c.TmpFile(strings.Repeat(nw+"\n", copies))
+	r := c.RunCLI("", 20*time.Second, "stats", "splits", "-i", f)
+	os.Remove(f)
+	exit := strconv.Itoa(r.Exit)
+	if r.Timeout {
+		exit = "timeout"
+	}
+	c.Emit("C04.splits", n.Dump(), strconv.Itoa(copies), outcome, core.StrList(dumps), exit, core.Escape(r.Stdout))
 }
 
 // ---------------------------------------------------------------------------
@@ -1478,6 +1572,18 @@ func Replay(c *core.Ctx, lines []string) {
 		case f[0] == "C04.quartet" && len(f) >= 5:
 			cp, _ := strconv.ParseUint(f[3], 10, 64)
 			doQuartet(c, parseQ(f[1]), parseQ(f[2]), cp, ratToLF(f[4]))
+		case f[0] == "C04.splits" && len(f) >= 2:
+			n, err := core.ParseDump(f[1])
+			if err != nil {
+				panic(err)
+			}
+			copies := 1
+			if len(f) >= 3 {
+				if v, err := strconv.Atoi(f[2]); err == nil && v >= 1 && v <= 16 {
+					copies = v
+				}
+			}
+			doSplits(c, n, copies)
 		default:
 			panic("C04: cannot replay " + f[0])
 		}
@@ -1575,6 +1681,9 @@ func Run(c *core.Ctx) {
 	}
 	for i, nb := 0, c.Scale(1, 4); i < nb; i++ {
 		bigQuartetsCase(c)
+	}
+	for i, ns := 0, c.Scale(96, 1200); i < ns; i++ {
+		splitsCase(c, i)
 	}
 	nm := c.Scale(300, 5000)
 	for i := 0; i < nm; i++ {
